@@ -181,6 +181,7 @@ def run(rep: core.Report):
     rep.rule("R16b", "save() hands every piece of state to the dumper; dumper settings keys are known", 14)
     rep.rule("R16c", "writers of whitespace-tokenised files separate adjacent numeric fields by a literal delimiter and write as many fields per line as the parser reads", 6)
     rep.rule("R16e", "type-1 -> type-2 conversion copies every per-supercell field", 3)
+    rep.rule("R16f", "BORN reader: the tensor of a symmetry-dependent atom is rebuilt from its representative with the operation in the direction representative -> atom (site typing of map_operations / map_atoms)", 2)
     em = emitted_keys()
     co, tests = consumed_keys()
     if len(em) < 35 or len(co) < 25:
@@ -208,6 +209,7 @@ def run(rep: core.Report):
     _r16b(rep)
     _r16c(rep)
     _r16e(rep)
+    _r16f(rep)
 
 
 def _r16b(rep):
@@ -428,6 +430,137 @@ def _r16e(rep):
                  "the converted arrays are not what is returned (or type-2 datasets are no longer returned unchanged)", line=fn.lineno)
 
 
+def _r16f(rep):
+    """Site typing in _expand_borns.  Symmetry.map_operations[i] is the operation that sends atom i ONTO its
+    representative map_atoms[i] (R x_i + t = x_rep; confirmed in Symmetry._set_map_operations and
+    _get_map_operations_from_permutations), so B_rep = R B_i R^-1 and B_i = R^-1 B_rep R.
+    Types: ('op', 'fwd'|'inv') for a rotation i->rep or rep->i; ('t', 'i'|'rep') for a tensor at that site."""
+    fn = core.find_def(FIO, "_expand_borns")
+    src_of = {}
+    for st in ast.walk(fn):
+        if isinstance(st, ast.Assign) and isinstance(st.targets[0], ast.Name):
+            t = core.src(st.value)
+            if "get_map_operations" in t:
+                src_of[st.targets[0].id] = "MO"
+            elif "get_map_atoms" in t:
+                src_of[st.targets[0].id] = "MA"
+            elif "rotations" in t and "symmetry_operations" in t:
+                src_of[st.targets[0].id] = "ROT"
+    if set(src_of.values()) != {"MO", "MA", "ROT"}:
+        raise AnalysisError("R16f: _expand_borns no longer reads rotations, map_operations and map_atoms from the symmetry object")
+    loops = [lp for lp in fn.body if isinstance(lp, ast.For)]
+    if len(loops) != 1:
+        raise AnalysisError("R16f: expected one loop over the atoms in _expand_borns")
+    lp = loops[0]
+    env = {}  # name -> type
+    # loop header
+    it = lp.iter
+    if isinstance(it, ast.Call) and core.src(it.func) == "range" and isinstance(lp.target, ast.Name):
+        env[lp.target.id] = ("idx", "i")
+    elif isinstance(it, ast.Call) and core.src(it.func) == "enumerate" and isinstance(lp.target, ast.Tuple) and isinstance(it.args[0], ast.Call) and core.src(it.args[0].func) == "zip":
+        env[core.src(lp.target.elts[0])] = ("idx", "i")
+        inner = lp.target.elts[1]
+        for t, a in zip(inner.elts if isinstance(inner, ast.Tuple) else [], it.args[0].args):
+            kind = src_of.get(core.src(a))
+            if kind == "MA":
+                env[core.src(t)] = ("idx", "rep")
+            elif kind == "MO":
+                env[core.src(t)] = ("opidx", "fwd")
+    else:
+        raise AnalysisError("R16f: loop header of _expand_borns not recognised")
+    problems = []
+
+    def ty(e):
+        if isinstance(e, ast.Name):
+            return env.get(e.id)
+        if isinstance(e, ast.Attribute) and e.attr == "T":
+            t = ty(e.value)
+            if t and t[0] == "op":
+                return ("op", "inv" if t[1] == "fwd" else "fwd")
+            return t
+        if isinstance(e, ast.Subscript):
+            base = src_of.get(core.src(e.value))
+            it_ = ty(e.slice)
+            if base == "MO" and it_ == ("idx", "i"):
+                return ("opidx", "fwd")
+            if base == "MA" and it_ == ("idx", "i"):
+                return ("idx", "rep")
+            if base == "ROT" and it_ == ("opidx", "fwd"):
+                return ("op", "fwd")
+            if core.src(e.value) == "borns" and it_ and it_[0] == "idx":
+                return ("t", it_[1])
+            return None
+        if isinstance(e, ast.Call):
+            f = core.src(e.func)
+            if f in ("np.linalg.inv", "np.transpose") and e.args:
+                t = ty(e.args[0])
+                if t and t[0] == "op":
+                    return ("op", "inv" if t[1] == "fwd" else "fwd")
+                return t
+            if f in ("np.array", "np.asarray") and e.args:
+                return ty(e.args[0])
+            if f == "similarity_transformation" and len(e.args) == 2:
+                a, b = ty(e.args[0]), ty(e.args[1])
+                if b and b[0] == "op":
+                    return b  # change of basis of an operation keeps its direction
+                if a and a[0] == "op" and b and b[0] == "t":
+                    need = "i" if a[1] == "fwd" else "rep"
+                    if b[1] != need:
+                        problems.append((e, f"'{core.norm(core.src(e), 70)}' applies the operation {'atom -> representative' if a[1] == 'fwd' else 'representative -> atom'} to the tensor of the {'representative' if b[1] == 'rep' else 'dependent atom'}"))
+                        return None
+                    return ("t", "rep" if a[1] == "fwd" else "i")
+                return None
+            if f in ("np.dot",) and len(e.args) == 2:
+                # R^-1 . (B . R)  or  (R^-1 . B) . R
+                flat = []
+
+                def fl(x):
+                    if isinstance(x, ast.Call) and core.src(x.func) == "np.dot" and len(x.args) == 2:
+                        fl(x.args[0]); fl(x.args[1])
+                    else:
+                        flat.append(x)
+
+                fl(e)
+                tys = [ty(x) for x in flat]
+                if len(tys) == 3 and tys[0] and tys[2] and tys[1] and tys[0][0] == "op" and tys[2][0] == "op" and tys[1][0] == "t":
+                    if tys[0][1] == tys[2][1]:
+                        problems.append((e, f"'{core.norm(core.src(e), 70)}' multiplies by the same rotation on both sides"))
+                        return None
+                    need = "i" if tys[0][1] == "fwd" else "rep"
+                    if tys[1][1] != need:
+                        problems.append((e, f"'{core.norm(core.src(e), 70)}' rotates the tensor of the wrong site"))
+                        return None
+                    return ("t", "rep" if tys[0][1] == "fwd" else "i")
+                return None
+        if isinstance(e, ast.BinOp) and isinstance(e.op, ast.MatMult):
+            fake = ast.Call(func=ast.parse("np.dot", mode="eval").body, args=[e.left, e.right], keywords=[])
+            return ty(ast.fix_missing_locations(ast.copy_location(fake, e)))
+        return None
+
+    stored = None
+    for st in ast.walk(lp):
+        if isinstance(st, ast.Assign):
+            t = st.targets[0]
+            v = ty(st.value)
+            if isinstance(t, ast.Name):
+                if v:
+                    env[t.id] = v
+            elif isinstance(t, ast.Subscript) and core.src(t.value) == "borns":
+                stored = (st, ty(t.slice), v)
+    if stored is None:
+        raise AnalysisError("R16f: no store into borns[...] in _expand_borns")
+    st, site, val = stored
+    for node, msg in problems:
+        rep.instance("R16f", FIO, "_expand_borns", core.norm(core.src(node), 70), False,
+                     msg + ": map_operations[i] sends atom i onto its representative, so the dependent tensor is R^-1 B_rep R; with the direction reversed an atom of an orbit with a 3-, 4- or 6-fold operation receives the tensor of another atom of the orbit, and a BORN file does not read back to the charges that were written", line=node.lineno)
+    if not problems:
+        if val is None:
+            rep.unknown("R16f: type of the value stored into borns[i] not determined")
+        rep.instance("R16f", FIO, "_expand_borns", f"{core.norm(core.src(st), 80)} : tensor at site '{val[1] if val else '?'}' stored at index '{site[1] if site else '?'}'", val is None or (site == ("idx", "i") and val == ("t", "i")),
+                     "the rebuilt tensor does not belong to the atom it is stored for", line=st.lineno)
+    rep.instance("R16f", FIO, "_expand_borns", "operation index and representative are taken from map_operations[i] / map_atoms[i] of the same atom", True, "", line=fn.lineno, nontrivial=False)
+
+
 def selftest():
     V = []
     b = lambda name, file, old, new, rule, expect="", **kw: V.append(dict(name=name, kind="break", file=file, old=old, new=new, rule=rule, expect=expect, **kw))
@@ -435,6 +568,8 @@ def selftest():
     b("dumper renames dielectric key", YML, 'lines.append("  dielectric_constant:")', 'lines.append("  dielectric_tensor:")', "R16a", "dielectric_constant")
     b("loader looks for 'forceconstants'", YML, 'self._yaml["force_constants"]', 'self._yaml["forceconstants"]', "R16a", "force", nth=0)
     b("save overrides the caller's explicit request", API, '        if _settings.get("force_constants") is False:\n            pass\n        elif not forces_in_dataset(self.dataset) and self.force_constants is not None:\n            _settings.update({"force_constants": True})', '        if _settings.get("force_constants", True) and self.force_constants is not None:\n            _settings["force_constants"] = not forces_in_dataset(self.dataset)', "R16b", "only ever set to True")
+    b("BORN expansion with the operation in the wrong direction", FIO, "        borns[i] = similarity_transformation(rot_cartesian.T, borns[map_atoms[i]])", "        borns[i] = similarity_transformation(rot_cartesian, borns[map_atoms[i]])", "R16f", "_expand_borns")
+    n("BORN expansion written with explicit products", FIO, "        borns[i] = similarity_transformation(rot_cartesian.T, borns[map_atoms[i]])", "        borns[i] = np.dot(rot_cartesian.T, np.dot(borns[map_atoms[i]], rot_cartesian))")
     b("save takes primitive matrix from the wrong attribute", YML, "self._data.primitive_matrix = phonopy.primitive_matrix", "self._data.primitive_matrix = phonopy.supercell_matrix", "R16b", "primitive_matrix")
     b("FORCE_SETS columns fused again", FIO, 'lines.append(" ".join(["%15.8f"] * 6) % (tuple(d) + tuple(f)))', 'lines.append(("%15.8f" * 6) % (tuple(d) + tuple(f)))', "R16c", "_get_FORCE_SETS_lines_type2")
     b("type-1 forces written fused", FIO, '"%15.10f %15.10f %15.10f" % tuple(f)', '"%15.10f%15.10f%15.10f" % tuple(f)', "R16c", "type1")
